@@ -41,6 +41,17 @@ def render(par, esc):
 def run(ctx):
     m = ctx.tlc("OpenLedger", cfg="CONSTANTS DrainOnDestroy = TRUE\nSPECIFICATION Spec\nINVARIANT NoLimbo\nCHECK_DEADLOCK FALSE\n", timeout=300)
     ctx.tlc_ok("OpenLedger MC", m)
+    # the container protocol machine with the descendant ledger: init is never ready for the next command
+    # while a descendant of the previous program is alive or an unreaped zombie (ReapedAtServe); the variant
+    # without the wait-all pass on the refusal path must fail (vacuity witness)
+    cfg = open(os.path.join(vlib.VERIF, "spec", "ContainerProto_MC.cfg")).read().replace("MaxCalls = 3", "MaxCalls = %d" % ctx.pick(1, 2))
+    cfg = cfg.replace('{"ping", "open", "delete", "exec"}', '{"ping", "exec"}')
+    cfg = "\n".join(l for l in cfg.splitlines() if not l.startswith("PROPERTIES")) + "\n"
+    m = ctx.tlc("ContainerProto", cfg=cfg, workers=4, timeout=1500)
+    ctx.tlc_ok("ContainerProto MC (ReapedAtServe)", m)
+    m = ctx.tlc("ContainerProto", cfg=cfg.replace("ReapOnRefusal = TRUE", "ReapOnRefusal = FALSE"), workers=4, timeout=1500, count=False)
+    if m.invariant != "ReapedAtServe":
+        raise vlib.Inconclusive("ContainerProto without the wait-all pass on the refusal path should violate ReapedAtServe")
     for r in ("ptrace", "unshare", "container"):
         m = ctx.tlc("ProcTree", cfg="ProcTree_%s.cfg" % r, workers=2, timeout=600)
         ctx.tlc_ok("ProcTree MC (%s)" % r, m)
